@@ -1,42 +1,216 @@
-(* I32.v — the index arithmetic of every position-taking call site, as functions of (index, length), with the
-   machine range made explicit.  C20 Part A: no intermediate value leaves the range of its machine type. *)
-From Coq Require Import ZArith Lia Bool.
-Open Scope Z_scope.
+(* I32.v — the index arithmetic of every position-taking call site, with the machine range made explicit.
+   C20 Part A: no intermediate value leaves the range of its machine type.
+
+   The formulas are NOT written here: they are the definitions DBI_*, AI_*, GBK_*, DKP_*, CI_*, CS_* of gen/Constants.v, which
+   the translator regenerates from functions.rs / selector.rs on every run (table ANCHORS of tools/translate_consts.py), and the
+   models (TreeOps, PathSem, Walk, EditWalk, EditWalk2, SelWalk) call those definitions.  For every expression E the translator
+   also emits E_SAFE : Prop, the conjunction of "this + - * / this `as T` stays inside the machine type", one conjunct per
+   operation of the source expression, under the path condition under which the code evaluates it.  This file proves
+     1. E_SAFE for all i32 arguments and all lengths that fit the 29-bit count field;
+     2. that cooperating sites (text branch / byte branch of the same function) compute the same function (`*_text_eq_bytes`);
+     3. that each generated definition is the reference formula the refinement proofs are written against (`*_spec`).
+   A change of the source expression changes the definition, and the lemmas here (and the refinement proofs) are re-checked. *)
+From Coq Require Import ZArith NArith Lia Bool.
+From JB Require Import Constants TreeOps Path PathSem.
+Local Open Scope Z_scope.
 Set Default Timeout 30.
 
-Definition i32 (z : Z) : Prop := -2147483648 <= z <= 2147483647.
-Definition i64 (z : Z) : Prop := -9223372036854775808 <= z <= 9223372036854775807.
-(* a container holds at most 2^29 - 1 entries (29-bit count field) *)
-Definition len_ok (len : Z) : Prop := 0 <= len < 536870912.
+Definition i32 (z : Z) : Prop := IN_i32 z.
+Definition i64 (z : Z) : Prop := IN_i64 z.
+(* a container holds at most 2^29 - 1 entries: the count is `header & CONTAINER_HEADER_LEN_MASK` (generated constant) *)
+Definition len_ok (len : Z) : Prop := 0 <= len <= Z.of_N CONTAINER_HEADER_LEN_MASK.
+Lemma len_ok_bound len : len_ok len <-> 0 <= len < 536870912.
+Proof. unfold len_ok, CONTAINER_HEADER_LEN_MASK. lia. Qed.
+Lemma i32_bound z : i32 z <-> -2147483648 <= z <= 2147483647.
+Proof. unfold i32, IN_i32. lia. Qed.
+Lemma i64_bound z : i64 z <-> -9223372036854775808 <= z <= 9223372036854775807.
+Proof. unfold i64, IN_i64. lia. Qed.
 
-(* delete_by_index / array_insert / delete_by_keypath after the fix: `if idx < 0 { len + idx } else { idx }` *)
-Definition resolve_i32 (idx len : Z) : Z := if idx <? 0 then len + idx else idx.
-Lemma resolve_in_range idx len : i32 idx -> len_ok len -> i32 (resolve_i32 idx len).
-Proof. unfold i32, len_ok, resolve_i32. intros. destruct (idx <? 0) eqn:E; lia. Qed.
-(* array_insert additionally treats a non-array as length 1 and clamps *)
-Lemma insert_clamp_in_range idx len :
-  i32 idx -> len_ok len ->
-  let j := resolve_i32 idx len in 0 <= (if j <? 0 then 0 else if len <? j then len else j) <= len.
+Ltac ranges := unfold i32, i64, IN_i32, IN_i64, IN_usize, IN_u32, len_ok, CONTAINER_HEADER_LEN_MASK in *.
+(* decide every comparison of the goal, then arithmetic *)
+Ltac cases :=
+  repeat match goal with
+         | |- context [Z.ltb ?a ?b] => destruct (Z.ltb_spec a b)
+         | |- context [Z.leb ?a ?b] => destruct (Z.leb_spec a b)
+         | |- context [Z.eqb ?a ?b] => destruct (Z.eqb_spec a b)
+         end;
+  cbn [andb orb negb]; try reflexivity; try lia; try (exfalso; lia).
+
+(* ------------------------------------------------------------------------------------------------------------------
+   delete_by_index (text) / delete_jsonb_by_index (bytes) *)
+Lemma DBI_RESOLVE_text_eq_bytes index len : DBI_T_RESOLVE index len = DBI_B_RESOLVE index len.
+Proof. unfold DBI_T_RESOLVE, DBI_B_RESOLVE. cases. Qed.
+Lemma DBI_KEEP_text_eq_bytes index len : DBI_T_KEEP index len = negb (DBI_B_SKIP index len).
+Proof. unfold DBI_T_KEEP, DBI_B_SKIP. cases. Qed.
+Lemma DBI_T_RESOLVE_spec index len : DBI_T_RESOLVE index len = resolve index len.
+Proof. unfold DBI_T_RESOLVE, resolve. cases. Qed.
+Lemma DBI_B_RESOLVE_spec index len : DBI_B_RESOLVE index len = resolve index len.
+Proof. unfold DBI_B_RESOLVE, resolve. cases. Qed.
+Lemma DBI_T_KEEP_spec index len : DBI_T_KEEP index len = ((0 <=? index) && (index <? len)).
+Proof. unfold DBI_T_KEEP. cases. Qed.
+Lemma DBI_B_SKIP_spec index len : DBI_B_SKIP index len = ((index <? 0) || (len <=? index)).
+Proof. unfold DBI_B_SKIP. cases. Qed.
+
+Lemma DBI_T_RESOLVE_safe index len : i32 index -> len_ok len -> DBI_T_RESOLVE_SAFE index len /\ i32 (DBI_T_RESOLVE index len).
+Proof. unfold DBI_T_RESOLVE_SAFE, DBI_T_RESOLVE. ranges. intros. split; [intros|]; cases. Qed.
+Lemma DBI_B_RESOLVE_safe index len : i32 index -> len_ok len -> DBI_B_RESOLVE_SAFE index len /\ i32 (DBI_B_RESOLVE index len).
+Proof. unfold DBI_B_RESOLVE_SAFE, DBI_B_RESOLVE. ranges. intros. split; [intros|]; cases. Qed.
+Lemma DBI_guards_safe index len : DBI_T_KEEP_SAFE index len /\ DBI_B_SKIP_SAFE index len.
+Proof. unfold DBI_T_KEEP_SAFE, DBI_B_SKIP_SAFE. split; exact I. Qed.
+(* the element that is removed exists: `arr.remove(index as usize)` does not panic, the byte walker skips exactly one entry *)
+Lemma DBI_T_KEEP_in_bounds index len : DBI_T_KEEP index len = true -> 0 <= index < len.
+Proof. unfold DBI_T_KEEP. intros H. lia. Qed.
+Lemma DBI_B_SKIP_in_bounds index len : DBI_B_SKIP index len = false -> 0 <= index < len.
+Proof. unfold DBI_B_SKIP. intros H. lia. Qed.
+
+(* ------------------------------------------------------------------------------------------------------------------
+   array_insert_jsonb *)
+Lemma AI_RESOLVE_spec pos len : AI_RESOLVE pos len = resolve pos len.
+Proof. unfold AI_RESOLVE, resolve. cases. Qed.
+Lemma AI_CLAMP_spec idx len : AI_CLAMP idx len = clamp 0 len idx.
+Proof. unfold AI_CLAMP, clamp. cases. Qed.
+Lemma AI_NONARRAY_LEN_spec : AI_NONARRAY_LEN = 1.
+Proof. reflexivity. Qed.
+Lemma AI_RESOLVE_safe pos len : i32 pos -> len_ok len -> AI_RESOLVE_SAFE pos len /\ i32 (AI_RESOLVE pos len).
+Proof. unfold AI_RESOLVE_SAFE, AI_RESOLVE. ranges. intros. split; [intros|]; cases. Qed.
+(* the clamped position is cast to usize: it is never negative, and it lies inside 0..=len *)
+Lemma AI_CLAMP_safe idx len : i32 idx -> len_ok len -> AI_CLAMP_SAFE idx len /\ 0 <= AI_CLAMP idx len <= len.
+Proof. unfold AI_CLAMP_SAFE, AI_CLAMP. ranges. intros. split; cases. Qed.
+Lemma AI_NONARRAY_LEN_safe : AI_NONARRAY_LEN_SAFE /\ len_ok AI_NONARRAY_LEN.
+Proof. unfold AI_NONARRAY_LEN_SAFE, AI_NONARRAY_LEN. ranges. split; [exact I|lia]. Qed.
+Lemma insert_position_safe pos len :
+  i32 pos -> len_ok len ->
+  AI_RESOLVE_SAFE pos len /\ AI_CLAMP_SAFE (AI_RESOLVE pos len) len /\ 0 <= AI_CLAMP (AI_RESOLVE pos len) len <= len.
 Proof.
-  unfold i32, len_ok, resolve_i32. intros. cbv zeta.
-  repeat match goal with |- context [?a <? ?b] => destruct (Z.ltb_spec a b) end; lia.
+  intros Hp Hl. destruct (AI_RESOLVE_safe pos len Hp Hl) as [S R]. destruct (AI_CLAMP_safe _ len R Hl) as [S2 B]. auto.
+Qed.
+
+(* ------------------------------------------------------------------------------------------------------------------
+   get_by_keypath: Value branch (T) / byte branch (B).  `*idx > length || length + *idx < 0` is evaluated left to right: the
+   sum is only computed when idx <= length; the index expression is only evaluated when the guard said false *)
+Lemma GBK_REJECT_text_eq_bytes idx length : GBK_T_REJECT idx length = GBK_B_REJECT idx length.
+Proof. unfold GBK_T_REJECT, GBK_B_REJECT. cases. Qed.
+Lemma GBK_INDEX_text_eq_bytes idx length : GBK_T_INDEX idx length = GBK_B_INDEX idx length.
+Proof. unfold GBK_T_INDEX, GBK_B_INDEX. cases. Qed.
+Lemma GBK_T_REJECT_spec idx length : GBK_T_REJECT idx length = ((length <? idx) || (length + idx <? 0)).
+Proof. unfold GBK_T_REJECT. cases. Qed.
+Lemma GBK_B_REJECT_spec idx length : GBK_B_REJECT idx length = ((length <? idx) || (length + idx <? 0)).
+Proof. unfold GBK_B_REJECT. cases. Qed.
+Lemma GBK_T_INDEX_spec idx length : GBK_T_INDEX idx length = (if 0 <=? idx then idx else length + idx).
+Proof. unfold GBK_T_INDEX. cases. Qed.
+Lemma GBK_B_INDEX_spec idx length : GBK_B_INDEX idx length = (if 0 <=? idx then idx else length + idx).
+Proof. unfold GBK_B_INDEX. cases. Qed.
+Lemma GBK_T_safe idx length :
+  i32 idx -> len_ok length ->
+  GBK_T_REJECT_SAFE idx length /\
+  (GBK_T_REJECT idx length = false -> GBK_T_INDEX_SAFE idx length /\ 0 <= GBK_T_INDEX idx length <= length).
+Proof.
+  unfold GBK_T_REJECT_SAFE, GBK_T_REJECT, GBK_T_INDEX_SAFE, GBK_T_INDEX. ranges. intros Hi Hl. split; [intros; lia|].
+  intros H. repeat split; intros; cases.
+Qed.
+Lemma GBK_B_safe idx length :
+  i32 idx -> len_ok length ->
+  GBK_B_REJECT_SAFE idx length /\
+  (GBK_B_REJECT idx length = false -> GBK_B_INDEX_SAFE idx length /\ 0 <= GBK_B_INDEX idx length <= length).
+Proof.
+  unfold GBK_B_REJECT_SAFE, GBK_B_REJECT, GBK_B_INDEX_SAFE, GBK_B_INDEX. ranges. intros Hi Hl. split; [intros; lia|].
+  intros H. repeat split; intros; cases.
+Qed.
+
+(* ------------------------------------------------------------------------------------------------------------------
+   delete_by_keypath: delete_value_array_by_keypath (T) / delete_jsonb_array_by_keypath (B) *)
+Lemma DKP_RESOLVE_text_eq_bytes idx len : DKP_T_RESOLVE idx len = DKP_B_RESOLVE idx len.
+Proof. unfold DKP_T_RESOLVE, DKP_B_RESOLVE. cases. Qed.
+Lemma DKP_SKIP_text_eq_bytes idx len : DKP_T_SKIP idx len = DKP_B_SKIP idx len.
+Proof. unfold DKP_T_SKIP, DKP_B_SKIP. cases. Qed.
+Lemma DKP_T_RESOLVE_spec idx len : DKP_T_RESOLVE idx len = resolve idx len.
+Proof. unfold DKP_T_RESOLVE, resolve. cases. Qed.
+Lemma DKP_B_RESOLVE_spec idx len : DKP_B_RESOLVE idx len = resolve idx len.
+Proof. unfold DKP_B_RESOLVE, resolve. cases. Qed.
+Lemma DKP_T_SKIP_spec idx len : DKP_T_SKIP idx len = ((idx <? 0) || (len <=? idx)).
+Proof. unfold DKP_T_SKIP. cases. Qed.
+Lemma DKP_B_SKIP_spec idx len : DKP_B_SKIP idx len = ((idx <? 0) || (len <=? idx)).
+Proof. unfold DKP_B_SKIP. cases. Qed.
+Lemma DKP_T_RESOLVE_safe idx len : i32 idx -> len_ok len -> DKP_T_RESOLVE_SAFE idx len /\ i32 (DKP_T_RESOLVE idx len).
+Proof. unfold DKP_T_RESOLVE_SAFE, DKP_T_RESOLVE. ranges. intros. split; [intros|]; cases. Qed.
+Lemma DKP_B_RESOLVE_safe idx len : i32 idx -> len_ok len -> DKP_B_RESOLVE_SAFE idx len /\ i32 (DKP_B_RESOLVE idx len).
+Proof. unfold DKP_B_RESOLVE_SAFE, DKP_B_RESOLVE. ranges. intros. split; [intros|]; cases. Qed.
+Lemma DKP_guards_safe idx len : DKP_T_SKIP_SAFE idx len /\ DKP_B_SKIP_SAFE idx len.
+Proof. unfold DKP_T_SKIP_SAFE, DKP_B_SKIP_SAFE. split; exact I. Qed.
+(* `arr.remove(idx as usize)` / `arr[idx as usize]` do not panic *)
+Lemma DKP_T_SKIP_in_bounds idx len : DKP_T_SKIP idx len = false -> 0 <= idx < len.
+Proof. unfold DKP_T_SKIP. intros H. lia. Qed.
+Lemma DKP_B_SKIP_in_bounds idx len : DKP_B_SKIP idx len = false -> 0 <= idx < len.
+Proof. unfold DKP_B_SKIP. intros H. lia. Qed.
+
+(* every `if idx < 0 { len + idx } else { idx }` of the crate, at once (the statement C20 had for the hand-written formula) *)
+Lemma resolve_in_range idx len :
+  i32 idx -> len_ok len ->
+  i32 (DBI_T_RESOLVE idx len) /\ i32 (DBI_B_RESOLVE idx len) /\ i32 (AI_RESOLVE idx len) /\
+  i32 (DKP_T_RESOLVE idx len) /\ i32 (DKP_B_RESOLVE idx len).
+Proof.
+  intros Hi Hl.
+  pose proof (proj2 (DBI_T_RESOLVE_safe idx len Hi Hl)). pose proof (proj2 (DBI_B_RESOLVE_safe idx len Hi Hl)).
+  pose proof (proj2 (AI_RESOLVE_safe idx len Hi Hl)). pose proof (proj2 (DKP_T_RESOLVE_safe idx len Hi Hl)).
+  pose proof (proj2 (DKP_B_RESOLVE_safe idx len Hi Hl)). auto 10.
 Qed.
 
 (* the code before the fix computed `len - idx.abs()`: i32::abs overflows at i32::MIN *)
 Lemma abs_overflow_refuted : exists idx, i32 idx /\ ~ i32 (Z.abs idx).
-Proof. exists (-2147483648). unfold i32. split; simpl; lia. Qed.
+Proof. exists (-2147483648). ranges. split; simpl; lia. Qed.
 
-(* get_by_keypath: `*idx > length || length + *idx < 0`, evaluated left to right: the sum is only computed
-   when idx <= length *)
-Lemma keypath_sum_in_range idx len : i32 idx -> len_ok len -> idx <= len -> i32 (len + idx).
-Proof. unfold i32, len_ok. lia. Qed.
+(* ------------------------------------------------------------------------------------------------------------------
+   selector.rs convert_index / convert_slice after the fix: `length + idx - 1` in i64 *)
+Lemma CS_START_LAST_eq_CI_LAST idx length : CS_START_LAST idx length = CI_LAST idx length.
+Proof. unfold CS_START_LAST, CI_LAST. lia. Qed.
+Lemma CS_END_LAST_eq_CI_LAST idx length : CS_END_LAST idx length = CI_LAST idx length.
+Proof. unfold CS_END_LAST, CI_LAST. lia. Qed.
+Lemma CI_LAST_spec idx length : CI_LAST idx length = length + idx - 1.
+Proof. unfold CI_LAST. lia. Qed.
+Lemma resolve_start_eq i len : resolve_start i len = resolve_index i len.
+Proof. destruct i; [reflexivity|apply CS_START_LAST_eq_CI_LAST]. Qed.
+Lemma resolve_end_eq i len : resolve_end i len = resolve_index i len.
+Proof. destruct i; [reflexivity|apply CS_END_LAST_eq_CI_LAST]. Qed.
+Lemma resolve_index_spec i len : resolve_index i len = match i with IIndex z => z | ILast z => len + z - 1 end.
+Proof. destruct i; [reflexivity|apply CI_LAST_spec]. Qed.
+Lemma CI_INRANGE_spec idx length : CI_INRANGE idx length = ((0 <=? idx) && (idx <? length)).
+Proof. unfold CI_INRANGE. cases. Qed.
+Lemma CS_EMPTY_spec start stop length : CS_EMPTY start stop length = ((stop <? start) || (length <=? start) || (stop <? 0)).
+Proof. unfold CS_EMPTY. cases. Qed.
+Lemma CS_LO_spec start : CS_LO start = Z.max 0 start.
+Proof. unfold CS_LO. cases. Qed.
+Lemma CS_HI_spec stop length : CS_HI stop length = Z.min (length - 1) stop.
+Proof. unfold CS_HI. cases. Qed.
 
-(* selector.rs convert_index / convert_slice after the fix: `length + idx - 1` in i64 *)
-Lemma last_index_in_range idx len : i32 idx -> len_ok len -> i64 (len + idx - 1).
-Proof. unfold i32, i64, len_ok. lia. Qed.
+Lemma CI_LAST_safe idx length : i32 idx -> len_ok length -> CI_LAST_SAFE idx length /\ i64 (CI_LAST idx length).
+Proof. unfold CI_LAST_SAFE, CI_LAST. ranges. intros. repeat split; lia. Qed.
+Lemma CS_START_LAST_safe idx length : i32 idx -> len_ok length -> CS_START_LAST_SAFE idx length /\ i64 (CS_START_LAST idx length).
+Proof. unfold CS_START_LAST_SAFE, CS_START_LAST. ranges. intros. repeat split; lia. Qed.
+Lemma CS_END_LAST_safe idx length : i32 idx -> len_ok length -> CS_END_LAST_SAFE idx length /\ i64 (CS_END_LAST idx length).
+Proof. unfold CS_END_LAST_SAFE, CS_END_LAST. ranges. intros. repeat split; lia. Qed.
+Lemma selector_guards_safe idx start stop length : CI_INRANGE_SAFE idx length /\ CS_EMPTY_SAFE start stop length.
+Proof. unfold CI_INRANGE_SAFE, CS_EMPTY_SAFE. split; exact I. Qed.
+(* `Some(idx as usize)`: the accepted index lies inside the array *)
+Lemma CI_INRANGE_in_bounds idx length : CI_INRANGE idx length = true -> 0 <= idx < length.
+Proof. unfold CI_INRANGE. intros H. lia. Qed.
+(* slices: the clamped bounds are cast to usize only when non-negative, `length - 1` does not wrap, and the produced range
+   lies inside the array.  0 < length: select_by_indices returns before the conversion when length == 0 (the translator
+   checks that this guard is still in the source: row SBI_NONEMPTY) *)
+Lemma CS_bounds_safe start stop length :
+  i64 start -> i64 stop -> len_ok length -> 0 < length -> CS_EMPTY start stop length = false ->
+  CS_LO_SAFE start /\ CS_HI_SAFE stop length /\ 0 <= CS_LO start <= CS_HI stop length /\ CS_HI stop length < length.
+Proof.
+  unfold CS_EMPTY, CS_LO_SAFE, CS_HI_SAFE, CS_LO, CS_HI. ranges. intros Hs He Hl Hpos H.
+  repeat split; intros; cases.
+Qed.
+(* the same bounds without the machine ranges (what the refinement proof of select_by_indices uses) *)
+Lemma CS_in_bounds start stop length :
+  0 < length -> CS_EMPTY start stop length = false -> 0 <= CS_LO start <= CS_HI stop length /\ CS_HI stop length < length.
+Proof. unfold CS_EMPTY, CS_LO, CS_HI. intros Hpos H. split; [split|]; cases. Qed.
 (* before the fix the same sum was computed in i32 *)
-Lemma last_index_i32_refuted : exists idx len, i32 idx /\ len_ok len /\ ~ i32 (len + idx - 1).
-Proof. exists 2147483647, 2. unfold i32, len_ok. repeat split; lia. Qed.
+Lemma last_index_i32_refuted : exists idx len, i32 idx /\ len_ok len /\ ~ i32 (CI_LAST idx len).
+Proof. exists 2147483647, 2. unfold CI_LAST. ranges. repeat split; lia. Qed.
+
 (* the parser's `last - v` (after the fix): v is read as an i64, negated with checked_neg (None exactly at i64::MIN, so the
    negation itself never overflows) and kept only if it fits an i32 *)
 Definition last_minus (v : Z) : option Z :=
@@ -44,17 +218,54 @@ Definition last_minus (v : Z) : option Z :=
   else if (-2147483648 <=? - v) && (- v <=? 2147483647) then Some (- v) else None.
 Lemma last_minus_in_range v n : i64 v -> last_minus v = Some n -> n = - v /\ i32 n /\ i64 (- v).
 Proof.
-  unfold i32, i64, last_minus. intros H. destruct (v =? -9223372036854775808) eqn:E; [discriminate|].
+  unfold last_minus. ranges. intros H. destruct (v =? -9223372036854775808) eqn:E; [discriminate|].
   destruct ((-2147483648 <=? - v) && (- v <=? 2147483647)) eqn:R; [|discriminate]. intros [= <-]. lia.
 Qed.
 (* before that fix `last - v` read an i32 and used saturating_neg: in range, but `last-2147483648` (what the offset
    i32::MIN prints as) was rejected and `last - -2147483648` silently became last+2147483647 *)
 Definition saturating_neg32 (v : Z) : Z := if v =? -2147483648 then 2147483647 else - v.
 Lemma saturating_neg_not_neg : exists v, i32 v /\ saturating_neg32 v <> - v.
-Proof. exists (-2147483648). unfold i32, saturating_neg32. cbn. split; lia. Qed.
+Proof. exists (-2147483648). unfold saturating_neg32. ranges. cbn. split; lia. Qed.
 
-(* slices: after clamping, the produced range lies inside the array *)
-Lemma slice_bounds s e len :
-  i64 s -> i64 e -> len_ok len -> 0 < len -> s <= e -> s < len -> 0 <= e ->
-  0 <= Z.max 0 s <= Z.min (len - 1) e /\ Z.min (len - 1) e < len.
-Proof. unfold i64, len_ok. intros. destruct (Z.max_spec 0 s), (Z.min_spec (len - 1) e); lia. Qed.
+(* ------------------------------------------------------------------------------------------------------------------
+   the statements Props/C20.v exports *)
+Lemma delete_by_index_safe index len :
+  i32 index -> len_ok len ->
+  DBI_T_RESOLVE_SAFE index len /\ DBI_T_KEEP_SAFE (DBI_T_RESOLVE index len) len /\
+  DBI_B_RESOLVE_SAFE index len /\ DBI_B_SKIP_SAFE (DBI_B_RESOLVE index len) len.
+Proof.
+  intros Hi Hl. pose proof (proj1 (DBI_T_RESOLVE_safe index len Hi Hl)). pose proof (proj1 (DBI_B_RESOLVE_safe index len Hi Hl)).
+  pose proof (proj1 (DBI_guards_safe (DBI_T_RESOLVE index len) len)). pose proof (proj2 (DBI_guards_safe (DBI_B_RESOLVE index len) len)). auto.
+Qed.
+Lemma delete_by_keypath_safe idx len :
+  i32 idx -> len_ok len ->
+  DKP_T_RESOLVE_SAFE idx len /\ DKP_T_SKIP_SAFE (DKP_T_RESOLVE idx len) len /\
+  DKP_B_RESOLVE_SAFE idx len /\ DKP_B_SKIP_SAFE (DKP_B_RESOLVE idx len) len.
+Proof.
+  intros Hi Hl. pose proof (proj1 (DKP_T_RESOLVE_safe idx len Hi Hl)). pose proof (proj1 (DKP_B_RESOLVE_safe idx len Hi Hl)).
+  pose proof (proj1 (DKP_guards_safe (DKP_T_RESOLVE idx len) len)). pose proof (proj2 (DKP_guards_safe (DKP_B_RESOLVE idx len) len)). auto.
+Qed.
+Lemma get_by_keypath_safe idx length :
+  i32 idx -> len_ok length ->
+  (GBK_T_REJECT_SAFE idx length /\
+   (GBK_T_REJECT idx length = false -> GBK_T_INDEX_SAFE idx length /\ 0 <= GBK_T_INDEX idx length <= length)) /\
+  (GBK_B_REJECT_SAFE idx length /\
+   (GBK_B_REJECT idx length = false -> GBK_B_INDEX_SAFE idx length /\ 0 <= GBK_B_INDEX idx length <= length)).
+Proof. intros Hi Hl. split; [apply GBK_T_safe|apply GBK_B_safe]; assumption. Qed.
+Lemma last_index_safe idx length :
+  i32 idx -> len_ok length ->
+  (CI_LAST_SAFE idx length /\ i64 (CI_LAST idx length)) /\
+  (CS_START_LAST_SAFE idx length /\ i64 (CS_START_LAST idx length)) /\
+  (CS_END_LAST_SAFE idx length /\ i64 (CS_END_LAST idx length)).
+Proof. intros Hi Hl. split; [|split]; [apply CI_LAST_safe|apply CS_START_LAST_safe|apply CS_END_LAST_safe]; assumption. Qed.
+(* the two branches of each function (JSON text input / JSONB input) resolve positions by the same function *)
+Lemma text_eq_bytes :
+  (forall i len, DBI_T_RESOLVE i len = DBI_B_RESOLVE i len) /\ (forall j len, DBI_T_KEEP j len = negb (DBI_B_SKIP j len)) /\
+  (forall i len, GBK_T_REJECT i len = GBK_B_REJECT i len) /\ (forall i len, GBK_T_INDEX i len = GBK_B_INDEX i len) /\
+  (forall i len, DKP_T_RESOLVE i len = DKP_B_RESOLVE i len) /\ (forall j len, DKP_T_SKIP j len = DKP_B_SKIP j len) /\
+  (forall i len, CS_START_LAST i len = CI_LAST i len) /\ (forall i len, CS_END_LAST i len = CI_LAST i len).
+Proof.
+  repeat split; intros;
+    first [apply DBI_RESOLVE_text_eq_bytes|apply DBI_KEEP_text_eq_bytes|apply GBK_REJECT_text_eq_bytes|apply GBK_INDEX_text_eq_bytes
+          |apply DKP_RESOLVE_text_eq_bytes|apply DKP_SKIP_text_eq_bytes|apply CS_START_LAST_eq_CI_LAST|apply CS_END_LAST_eq_CI_LAST].
+Qed.
